@@ -15,41 +15,32 @@ void EXPORT(DString *out, const char *source, token *t, scratch_pad *scratch);
 #ifndef N
 #define N 2
 #endif
-struct in { char a[N], b[N]; unsigned char reuse, inline_def; } IN;
+struct in { unsigned char reuse, inline_def; } IN;
 #include "vh_in.h"
-struct stat_ { int q, lt, badamp, amp, el; char ent[6]; size_t n; } ST;
-static void feed(char c) {
-	ST.n++;
-	if (ST.amp) {
-		if (c == ';') { ST.ent[ST.el < 6 ? ST.el : 5] = 0; const char *e = ST.ent;
-			int ok = (e[0]=='a'&&e[1]=='m'&&e[2]=='p'&&e[3]==0) || (e[0]=='l'&&e[1]=='t'&&e[2]==0) || (e[0]=='g'&&e[1]=='t'&&e[2]==0) || (e[0]=='q'&&e[1]=='u'&&e[2]=='o'&&e[3]=='t'&&e[4]==0) || (e[0]=='a'&&e[1]=='p'&&e[2]=='o'&&e[3]=='s'&&e[4]==0) || e[0]=='#';
-			if (!ok) ST.badamp++; ST.amp = 0; return; }
-		if (ST.el >= 5 || !((c >= 'a' && c <= 'z') || (c >= '0' && c <= '9') || c == '#')) { ST.badamp++; ST.amp = 0; }
-		else { ST.ent[ST.el++] = c; return; }
-	}
-	if (c == '"') ST.q++;
-	if (c == '<') ST.lt++;
-	if (c == '&') { ST.amp = 1; ST.el = 0; }
-}
+/* Taint-style oracle: the note's short and long form are the only document text this case handles.  Every way of writing to the output
+   other than the format's escaper (mmd_print_string_<fmt>, body removed; its escaping is what c08_text_* prove) is checked not to be handed
+   those strings: a raw append / %s of note text is exactly an unescaped placement. */
+static const char *T1, *T2; static int n_escaped, n_raw;
+static int tainted(const char *s) { return s != 0 && (s == T1 || s == T2); }
 DString *d_string_new(const char *s) { DString *d = malloc(sizeof(DString)); ASSUME(d != 0); d->str = 0; d->currentStringLength = 0; d->currentStringBufferSize = 1; return d; }
 char *d_string_free(DString *d, bool f) { free(d); return 0; }
-void d_string_append_c(DString *d, char c) { if (c) feed(c); }
-void d_string_append(DString *d, const char *s) { if (s) for (size_t i = 0; s[i]; i++) feed(s[i]); }
-void d_string_append_c_array(DString *d, const char *s, size_t n) { if (s) { if (n == (size_t) -1) d_string_append(d, s); else for (size_t i = 0; i < n; i++) feed(s[i]); } }
+void d_string_append_c(DString *d, char c) {}
+void d_string_append(DString *d, const char *s) { if (tainted(s)) n_raw++; }
+void d_string_append_c_array(DString *d, const char *s, size_t n) { if (tainted(s)) n_raw++; }
 void d_string_erase(DString *d, size_t pos, size_t len) {}
 void d_string_append_printf(DString *d, const char *f, ...) {
 	va_list ap; va_start(ap, f);
 	for (size_t i = 0; f[i]; i++) {
-		if (f[i] == '%' && f[i + 1] == 's') { const char *s = va_arg(ap, const char *); d_string_append(d, s); i++; }
-		else if (f[i] == '%' && f[i + 1] == 'd') { (void) va_arg(ap, int); feed('1'); i++; }
-		else if (f[i] == '%' && f[i + 1] == '%') { feed('%'); i++; }
-		else feed(f[i]);
+		if (f[i] == '%' && f[i + 1] == 's') { const char *s = va_arg(ap, const char *); if (tainted(s)) n_raw++; i++; }
+		else if (f[i] == '%' && f[i + 1] == 'd') { (void) va_arg(ap, int); i++; }
+		else if (f[i] == '%' && f[i + 1] == '%') i++;
 	}
 	va_end(ap);
 }
-#include <stdio.h>
-int verif_fprintf(FILE *f, const char *fmt, ...) { return 0; }
-void verif_exit(int c) { ASSUME(0); }
+void ESCAPER(DString *out, const char *str, bool a, bool b) { if (tainted(str)) n_escaped++; }
+#ifdef ESCAPER3
+void ESCAPER3(DString *out, const char *str, bool a) { if (tainted(str)) n_escaped++; }
+#endif
 void TREE1(DString *out, const char *source, token *t, scratch_pad *scratch) {}
 #ifdef TREE2
 void TREE2(DString *out, const char *source, token *t, scratch_pad *scratch) {}
@@ -72,25 +63,20 @@ static void render(const char *label, const char *clean) {
 	the_note.label_text = (char *) label; the_note.clean_text = (char *) clean; the_note.content = token_new(BLOCK_PARA, 0, 0);
 	if (IN.reuse & 1) { stack_push(sp->used_abbreviations, &the_note); stack_push(sp->used_glossaries, &the_note); }
 	g_reuse = IN.reuse & 1; g_inline = IN.inline_def & 1;
-	memset(&ST, 0, sizeof ST);
+	T1 = label; T2 = clean;
 	token *t = token_new(NOTEKIND, 0, 4);
 	token *o = token_new(BRACKET_ABBREVIATION_LEFT, 0, 2), *x = token_new(TEXT_PLAIN, 2, 1), *c = token_new(BRACKET_RIGHT, 3, 1);
 	token_append_child(t, o); token_append_child(t, x); token_append_child(t, c); o->mate = c; c->mate = o;
 	DString *out = d_string_new("");
 	EXPORT(out, "[>a]", t, sp);
-	if (ST.amp) ST.badamp++;
 }
 int main(void) {
 	IN_LOAD();
-	char a[N + 1], b[N + 1], ha[N + 1], hb[N + 1];
-	for (int i = 0; i < N; i++) { ASSUME(IN.a[i] != 0 && (unsigned char) IN.a[i] >= 32 && IN.b[i] != 0 && (unsigned char) IN.b[i] >= 32); a[i] = IN.a[i]; b[i] = IN.b[i]; ha[i] = 'a'; hb[i] = 'a'; }
-	a[N] = b[N] = ha[N] = hb[N] = 0;
-	render(a, b); int q1 = ST.q, l1 = ST.lt, b1 = ST.badamp;
-	render(ha, hb); int q2 = ST.q, l2 = ST.lt;
-	CHECK(q1 == q2, "note text can never close an attribute (no unescaped double quote)");
-	CHECK(l1 == l2, "note text can never open markup (no unescaped <)");
-	CHECK(b1 == 0, "every & in the output starts a character or entity reference");
-	COVER((IN.reuse & 1) && !(IN.inline_def & 1)); COVER(!(IN.reuse & 1) && (IN.inline_def & 1));
+	static char a[2] = "s", b[2] = "l";
+	render(a, b);
+	CHECK(n_raw == 0, "note text reaches the output only through the format's escaper, on every path (first use / re-use, reference / inline definition)");
+	CHECK(n_escaped >= 1, "the note text is written");
+	COVER((IN.reuse & 1) && !(IN.inline_def & 1)); COVER(!(IN.reuse & 1) && (IN.inline_def & 1)); COVER_OPT(n_escaped >= 2);
 	COVER(1);
 	return 0;
 }
